@@ -263,6 +263,26 @@ def reader_stores(prog, cd, rep, kinds, rule="segment-stores"):
                     rep.fail(rule, mod, fq, node, f"store `{name}[{norm(idx)}] = {norm(val)}` does not put a run's data at the run's own frames")
 
 
+def gap_reader_accepts(prog, cd, rep, gap_units, rule="gap-reader-accepts"):
+    """'For every pattern of missing frames' the decoder takes what the writer emits: the decoder of a gapped record has no
+    refusal of its own (a `raise` under a condition over the run table it has just read rejects some patterns - runs one frame
+    apart, a single run, no run - although the writer produces them)."""
+    from ..layout import Fail, walk_terms
+    n = 0
+    for u in [u for u in cd.units.values() if u.name in gap_units]:
+        n += 1
+        mod, fq = u.reader.module.path.name, u.reader.qualname
+        fails = [t for t in walk_terms(u.rterms) if isinstance(t, Fail)]
+        raises = [x for x in ast.walk(u.reader.node) if isinstance(x, ast.Raise)]
+        if fails or raises:
+            node = fails[0].node if fails else raises[0]
+            rep.fail(rule, mod, fq, node, f"`{norm(head(node))[:70]}`: the decoder of a gapped record can refuse a run table; the writer emits every pattern of runs, so some stored pattern no longer decodes",
+                     construct=f"{fq} raises")
+        else:
+            rep.ok(rule, f"{fq}: no refusal in the decoder of the gapped record", nontrivial=True)
+    rep.floor(rule, n, 4)
+
+
 def run(prog, rep):
     cd = Codecs(prog)
     cd.flag_errors(rep)
@@ -291,5 +311,6 @@ def run(prog, rep):
     from .c01 import report_unit
     for u in [u for u in cd.units.values() if u.name in gap_units]:
         rep.attempt(report_unit, rep, cd, u, rule="gap-record-symmetry")
+    rep.attempt(gap_reader_accepts, prog, cd, rep, gap_units)
     rep.trusted += ["numpy contract: masked_invalid + clump_unmasked return the maximal runs of non-NaN entries as increasing, disjoint, non-adjacent slices"]
     rep.not_decided += ["the numpy contract itself over all 2^n masks", "tracks whose components disagree on where the NaNs are"]
